@@ -254,10 +254,7 @@ static int cmd_compile(int argc, char **argv) {
 }
 
 /* ---------------- run loop ---------------- */
-static Family *families[] = { &fam_daemon, &fam_cop,
-#ifdef HAVE_FAM_STORE
-    &fam_store,
-#endif
+static Family *families[] = { &fam_daemon, &fam_cop, &fam_store,
 #ifdef HAVE_FAM_HEAP
     &fam_heap,
 #endif
